@@ -31,13 +31,14 @@ const (
 	opLinkat
 	opReadDirent
 	opDup
+	opFallocate
 )
 
 var opNames = map[int]string{
 	opOpenat: "openat", opClose: "close", opRead: "read", opWrite: "write", opPread: "pread",
 	opPwrite: "pwrite", opSeek: "seek", opFsync: "fsync", opFdatasync: "fdatasync", opSync: "sync",
 	opFtruncate: "ftruncate", opFstat: "fstat", opStat: "stat", opMkdirat: "mkdirat",
-	opUnlinkat: "unlinkat", opRenameat: "renameat", opLinkat: "linkat", opReadDirent: "getdents64", opDup: "dup",
+	opUnlinkat: "unlinkat", opRenameat: "renameat", opLinkat: "linkat", opReadDirent: "getdents64", opDup: "dup", opFallocate: "fallocate",
 }
 
 // OpName returns the system call name of a SysRec/trace op code.
@@ -309,6 +310,48 @@ func (k *Kernel) exec(op int, r *simrt.Req, short int, fault *string) (ret int64
 			k.forceData(f.ino)
 		}
 		return 0, 0, args
+	case opFallocate:
+		// error precedence follows Linux vfs_fallocate
+		f := k.fds[int(r.I0)]
+		args = fmt.Sprintf("%d,mode=%#x,off=%d,len=%d", r.I0, r.I2, r.I1, r.R1)
+		if f == nil {
+			return -1, syscall.EBADF, args
+		}
+		off, ln, mode := r.I1, r.R1, r.I2
+		const keepSize, punchHole, zeroRange = 0x1, 0x2, 0x10
+		if off < 0 || ln <= 0 {
+			return -1, syscall.EINVAL, args
+		}
+		if mode&^(keepSize|punchHole|zeroRange) != 0 {
+			return -1, syscall.EOPNOTSUPP, args
+		}
+		if mode&punchHole != 0 && mode&zeroRange != 0 {
+			return -1, syscall.EOPNOTSUPP, args
+		}
+		if mode&punchHole != 0 && mode&keepSize == 0 {
+			return -1, syscall.EOPNOTSUPP, args
+		}
+		if f.flags&oACCMODE == syscall.O_RDONLY {
+			return -1, syscall.EBADF, args
+		}
+		if f.ino.isDir {
+			return -1, syscall.EISDIR, args
+		}
+		size := int64(len(f.ino.data))
+		end := off + ln
+		if mode&(punchHole|zeroRange) != 0 {
+			zend := end
+			if zend > size {
+				zend = size
+			}
+			if zend > off {
+				k.writeAt(f.ino, make([]byte, zend-off), off)
+			}
+		}
+		if mode&keepSize == 0 && end > size {
+			k.truncate(f.ino, end)
+		}
+		return 0, 0, args
 	case opFstat, opStat:
 		var in *inode
 		if op == opFstat {
@@ -557,6 +600,18 @@ func Sync() {
 	}
 	var r simrt.Req
 	call(opSync, &r)
+}
+
+//go:norace
+func Fallocate(fd int, mode uint32, off int64, len int64) error {
+	if realMode() {
+		simrt.Yield(-10)
+		return unix.Fallocate(fd, mode, off, len)
+	}
+	var r simrt.Req
+	r.I0, r.I1, r.I2, r.R1 = int64(fd), off, int64(mode), len
+	_, err := call(opFallocate, &r)
+	return err
 }
 
 //go:norace
